@@ -130,6 +130,58 @@ theorem C04_failed_to_keeps_state (types : List (Rule K)) (q : Q K) (b2 : BU K)
   | ok g => simp [hp] at h
   | error e => rfl
 
+/-! ## Targets given as a `Quantity` (`Unit().m`, `Unit('m')`, `2*Unit('s')`, `Quantity(2,'s')`) -/
+
+/-- Whatever the classes and the target quantity's magnitude: a refused `to(Quantity)`
+    leaves the quantity exactly as it was (the division by the target's magnitude is part of
+    the assignment that only happens after a successful conversion). -/
+theorem C04_to_quantity_failed_keeps_state (types : List (Rule K)) (q : Q K) (tm : K) (tb : BU K)
+    (h : (Q.toQuantity types q tm tb).2 = false) : (Q.toQuantity types q tm tb).1 = q := by
+  unfold Q.toQuantity at h ⊢
+  cases hp : pick types q.bu tb with
+  | ok g => simp [hp] at h
+  | error e => rfl
+
+/-- `to(Quantity(tm, v))` succeeds exactly when `to(v)` does and leaves the value of `to(v)`
+    divided by `tm`, with `v`'s units; for `tm = 1` (a unit object) it *is* `to(v)`. -/
+theorem C04_to_quantity_agrees_to (types : List (Rule K)) (q : Q K) (tm : K) (tb : BU K) :
+    (Q.toQuantity types q tm tb).2 = (Q.to types q tb).2 ∧
+    (Q.toQuantity types q tm tb).1.bu = (Q.to types q tb).1.bu ∧
+    (Q.toQuantity types q tm tb).1.val
+      = (if (Q.to types q tb).2 then (Q.to types q tb).1.val.map (fun y => y / tm) else q.val) ∧
+    (tm = 1 → Q.toQuantity types q tm tb = Q.to types q tb) := by
+  unfold Q.toQuantity Q.to
+  cases hp : pick types q.bu tb with
+  | ok g =>
+    refine ⟨rfl, rfl, by simp [Mag.map_map], fun h1 => ?_⟩
+    subst h1
+    simp
+  | error e => exact ⟨rfl, rfl, by simp, fun _ => rfl⟩
+
+/-- Same dimension, Quantity target: `x·f(u)/f(v)/tm`. -/
+theorem C04_to_quantity_value (pre post : List (Rule K)) (q : Q K) (tm : K) (tb : BU K)
+    (hpre : ∀ r ∈ pre, r q.bu tb = .decline) (hd : q.bu.dims.eq tb.dims = true) :
+    Q.toQuantity (pre ++ standard :: post) q tm tb
+      = (⟨q.val.map (fun x => x * q.bu.magnitude / tb.magnitude / tm), tb⟩, true) := by
+  simp only [Q.toQuantity, pick_of_declines pre _ _ _ hpre, pick, standard_same _ _ hd]
+
+/-- Reciprocal dimension, Quantity target: the reciprocal is taken of the *unscaled* value,
+    `1/(x·f(u))/f(v)/tm` (scaling by `tm` before the reciprocal would be off by `tm²`). -/
+theorem C04_to_quantity_reciprocal (pre post : List (Rule K)) (q : Q K) (tm : K) (tb : BU K)
+    (hpre : ∀ r ∈ pre, r q.bu tb = .decline) (hd : q.bu.dims.eq tb.dims = false)
+    (hn : q.bu.dims.neg.eq tb.dims = true) :
+    Q.toQuantity (pre ++ standard :: post) q tm tb
+      = (⟨q.val.map (fun x => 1 / (x * q.bu.magnitude) / tb.magnitude / tm), tb⟩, true) := by
+  simp only [Q.toQuantity, pick_of_declines pre _ _ _ hpre, pick, standard_neg _ _ hd hn]
+
+/-- Dimension safety with a Quantity target: refused, state kept. -/
+theorem C04_to_quantity_refuse (pre : List (Rule K)) (q : Q K) (tm : K) (tb : BU K)
+    (hpre : ∀ r ∈ pre, r q.bu tb = .decline) (hd : q.bu.dims.eq tb.dims = false)
+    (hn : q.bu.dims.neg.eq tb.dims = false)
+    (hr : (q.bu.nobase && tb.units == ["rad"] && radOne tb.dims) = false) :
+    Q.toQuantity (pre ++ [standard]) q tm tb = (q, false) := by
+  simp only [Q.toQuantity, pick_of_declines pre _ _ _ hpre, pick, standard_decline _ _ hd hn hr]
+
 /-! ## The regenerated `UNIT_TYPES` and process lists -/
 
 section real
@@ -203,6 +255,9 @@ example : exKm.dims.eq exPerM.dims = false ∧ exKm.dims.neg.eq exPerM.dims = tr
 example : exKm.dims.eq exS.dims = false ∧ exKm.dims.neg.eq exS.dims = false ∧
     (exKm.nobase && exS.units == ["rad"] && radOne exS.dims) = false ∧
     Q.to [standard] ⟨.scalar (2 : Rat), exKm⟩ exS = (⟨.scalar 2, exKm⟩, false) := by decide +kernel
+-- Quantity target of magnitude 2: 4 km → "2 per metre" is (1/4000)/2; a refused one keeps the state
+example : Q.toQuantity [standard] ⟨.scalar (4 : Rat), exKm⟩ 2 exPerM = (⟨.scalar (mkRat 1 8000), exPerM⟩, true) ∧
+    Q.toQuantity [standard] ⟨.scalar (6 : Rat), exKm⟩ 2 exS = (⟨.scalar 6, exKm⟩, false) := by decide +kernel
 end examples
 
 end SciVerif.C04
